@@ -97,6 +97,7 @@ class Sched:
     # whatever locks it holds, exactly as a descheduled OS thread would)
     self.inject = None
     self.waypoints, self.wp_i = [], 0   # policy 'directed'
+    self.fail_thread_start, self.thread_start_failures = None, 0   # fault injection: Thread.start of the thread with this target name raises once
 
   def _new(self, name):
     t = TS(name, len(self.threads))
@@ -462,6 +463,12 @@ class SThread(_real_Thread):
     s = S
     if s is None:
       return _real_Thread.start(self)
+    tgt0 = getattr(self, '_target', None)
+    if s.fail_thread_start is not None and getattr(tgt0, '__name__', None) == s.fail_thread_start:
+      # fault injection: the operating system refuses to start this thread (once)
+      s.fail_thread_start = None
+      s.thread_start_failures += 1
+      raise RuntimeError("can't start new thread")
     self._ts = s._new('T%d' % len(s.threads))
     self._ts.pyname = str(self.name)
     self._ts.thread = self
